@@ -229,15 +229,17 @@ var directedSchedules = [][]string{
 	{"store:0", "arriveRace:0", "get:0", "get:1", "park:1", "upEnd:0:cacheable:60", "complete:0", "saved:0:1", "resume:1", "age:1"},
 	// the same for a key made cold again by a purge
 	{"store:1", "arrive:0", "get:0:honest", "upEnd:0:cacheable:60", "complete:0", "saved:0:1", "purge:0:1", "arriveRace:0", "get:1:honest", "get:2:honest", "park:2", "upEnd:1:cacheable:60", "complete:1", "saved:1:1", "resume:2", "age:2"},
+	// reload while a fetch with a waiter is in flight: the next arrival still joins the same entry
+	{"store:0", "arrive:0", "get:0", "arrive:0", "get:1", "reload", "arrive:0", "get:2", "park:1", "park:2", "upEnd:0:cacheable:60", "complete:0", "saved:0:1", "resume:1", "age:1", "resume:2", "age:2"},
 	// hit-for-pass lapse: single prober, others wait
 	{"store:0", "hfp:2s", "arrive:0", "get:0", "upEnd:0:error:1", "complete:0", "saved:0:1", "tick:1", "arrive:0", "get:1", "tick:2", "arrive:0", "arrive:0", "get:2", "get:3", "park:3", "upEnd:1:nostore:1", "upEnd:2:cacheable:3", "complete:2", "saved:2:1", "resume:3", "age:3"},
 	// restart: served from the store with Age continuing, then past the original expiry
 	{"store:1", "arrive:0", "get:0:honest", "upEnd:0:cacheable:3", "complete:0", "saved:0:1", "crash", "tick:2", "arrive:0", "get:1:honest", "age:1", "crash", "tick:2", "arrive:0", "get:2:honest", "upEnd:2:nostore:1", "complete:2", "saved:2:1"},
 	// bad records
 	{"store:1", "arrive:0", "get:0:honest", "upEnd:0:cacheable:60", "complete:0", "saved:0:1", "crash",
-		"arrive:0", "get:1:mutate", "upEnd:1:error:1", "complete:1", "saved:1:0", "crash",
+		"arrive:0", "get:1:truncate", "upEnd:1:error:1", "complete:1", "saved:1:0", "crash",
 		"arrive:0", "get:2:error", "upEnd:2:error:1", "complete:2", "saved:2:0", "crash",
-		"arrive:0", "get:3:mutate", "upEnd:3:error:1", "complete:3", "saved:3:0", "crash", "arrive:0", "get:4:honest"},
+		"arrive:0", "get:3:truncate", "upEnd:3:error:1", "complete:3", "saved:3:0", "crash", "arrive:0", "get:4:honest"},
 }
 
 func runSchedule(cr *rng, seq int, script []string) (blocked bool) {
@@ -274,6 +276,9 @@ func runSchedule(cr *rng, seq int, script []string) (blocked bool) {
 				if ok {
 					data, err, out = rec, nil, "bytes:"+hxb(rec)
 				}
+			case plan == "truncate": // scripted: the record cut in half (must be refused, whatever its content)
+				d := append([]byte(nil), rec[:len(rec)/2]...)
+				data, err, out = d, nil, "bytes:"+hxb(d)
 			default: // mutate
 				d, _ := mutateRecord(newRng(uint64(len(key))*7919+uint64(len(rec))+uint64(run.nextRid)), rec)
 				data, err, out = d, nil, "bytes:"+hxb(d)
@@ -318,6 +323,7 @@ func runSchedule(cr *rng, seq int, script []string) (blocked bool) {
 		}
 		h := c.Header()
 		h["Content-Type"] = []string{"image/png"}
+		h["Etag"] = []string{`"same-for-every-answer"`} // a validator says nothing about which fetch a body came from
 		if a.kind == "cacheable" {
 			h["Cache-Control"] = []string{fmt.Sprintf("max-age=%d", a.ttl)}
 		} else {
@@ -436,13 +442,16 @@ func runSchedule(cr *rng, seq int, script []string) (blocked bool) {
 		if active == 0 && len(run.threads) > 0 && cr.chance(30) {
 			acts = append(acts, action{"crash", nil})
 		}
+		if cr.chance(12) {
+			acts = append(acts, action{"reload", nil})
+		}
 		a := acts[cr.intn(len(acts))]
 		// scripted step: override the random choice and its parameters
 		var sp []string
 		if script != nil {
 			sp = strings.Split(script[step], ":")
 			a = action{name: sp[0]}
-			if sp[0] != "arrive" && sp[0] != "tick" && sp[0] != "purge" && sp[0] != "purgeRace" && sp[0] != "arriveRace" && sp[0] != "crash" {
+			if sp[0] != "arrive" && sp[0] != "tick" && sp[0] != "purge" && sp[0] != "purgeRace" && sp[0] != "arriveRace" && sp[0] != "reload" && sp[0] != "crash" {
 				ti, _ := strconv.Atoi(sp[1])
 				if ti >= len(run.threads) {
 					emit("sched", "script-error", script[step])
@@ -658,6 +667,11 @@ func runSchedule(cr *rng, seq int, script []string) (blocked bool) {
 				run.await(t)
 				emit("sched", "arrive", idOf(t), itoa(int64(t.key)), hx(t.method), "=>", posLine(t), itoa(int64(run.eidx(t.entry))))
 			}
+		case "reload":
+			// a configuration reload that leaves this cache as it is (main.update calls ResetDispatchers on every
+			// change of any section): requests in flight and resident entries are not disturbed
+			run.ctl(func() { cache.ResetDispatchers([]config.CacheConfig{p.cacheCfg}) })
+			emit("sched", "reload")
 		case "crash":
 			// restart with the same store: every entry gone (no request is in flight here)
 			run.ctl(func() {
